@@ -1,4 +1,5 @@
 import NessaiVerif.Model.Tables
+import NessaiVerif.Gen.Tables
 import NessaiVerif.Driver.Parse
 /-
 C14 line protocol (token `tab`).  Strings carry no spaces (the table generator strips them).
@@ -7,6 +8,7 @@ C14 line protocol (token `tab`).  Strings carry no spaces (the table generator s
   tab call <file> <func> <method>                            → 1 / 0   (`callAllowed`)
   tab rng <[seeded sources]> <source> <file> <func> <call>   → 1 / 0   (`siteOk`)
   tab guarded <file> <func> <setting>                        → 1 / 0   (`guardedKnown`)
+  tab seedguard <none|int>                                   → 1 / 0   (generated `seedReplaced`: is the seed replaced?)
   tab probe <allow0> <userPool> <detected|none> <nPoolArg|none> <cached none|0|1> <isVec>
        → allow=<b> npool=<n|none> pool=<b> points=<n> vec=<b> cached=<none|0|1>
 -/
@@ -43,6 +45,10 @@ def handle (toks : List String) : String :=
     | some sd, some s => showBool (siteOk sd ⟨file, func, 0, call, .draw, s⟩)
     | _, _ => "bad-op"
   | ["guarded", file, func, setting] => showBool (guardedKnown ⟨file, func, 0, setting, ""⟩)
+  | ["seedguard", v] =>
+    match parseOpt? parseInt? v with
+    | some s => showBool (Gen.Tables.seedReplaced s)
+    | none => "bad-op"
   | ["probe", allow0, userPool, detected, nPoolArg, cached, isVec] =>
     match parseBool? allow0, parseBool? userPool, parseOpt? parseNat? detected, parseOpt? parseNat? nPoolArg,
           parseOpt? parseBool? cached, parseBool? isVec with
